@@ -2,9 +2,11 @@
 (* Step G for C04: TLC walks the point families of Gen_CPRPoints and prints *)
 (* one vector per point,                                                    *)
 (*   [family, index, L, M, YZ_0, XZ_0, YZ_1, XZ_1, SameBand, NearThreshold, *)
-(*    NL(Rlat_0), NL(Rlat_1)]                                               *)
+(*    NL(Rlat_0), NL(Rlat_1), YZ_0, XZ_0, YZ_1, XZ_1 of the neighbour]      *)
 (* i.e. the true position on the lattice and the even/odd airborne CPR      *)
-(* fields CPR.tla encodes it to.  The last four are for coverage counts only *)
+(* fields CPR.tla encodes it to (and the neighbouring lattice point, for    *)
+(* same-parity pairs of two different positions).  SameBand .. NL are for   *)
+(* coverage counts only                                                     *)
 (* (the trace specification recomputes everything from L and M).            *)
 (* GEN_SLICE / GEN_NSLICES split the output over parallel TLC processes.    *)
 EXTENDS Gen_CPRPoints, Json
@@ -19,7 +21,9 @@ Vec(f, x) ==
       M == p[2]
   IN  << f, x, L, M, YZ("air", 0, L), XZ("air", 0, L, M), YZ("air", 1, L), XZ("air", 1, L, M),
          IF SameBand(L) THEN 1 ELSE 0, IF NearThresholdPair(L) THEN 1 ELSE 0,
-         NLat("air", 0, L), NLat("air", 1, L) >>
+         NLat("air", 0, L), NLat("air", 1, L),
+         YZ("air", 0, NeighL(L)), XZ("air", 0, NeighL(L), NeighM(M)),
+         YZ("air", 1, NeighL(L)), XZ("air", 1, NeighL(L), NeighM(M)) >>
 
 Emit(f, x) == IF Valid(f, x) /\ x % NSlices = Slice THEN PrintT(ToJson(Vec(f, x))) ELSE TRUE
 
